@@ -4,7 +4,8 @@
    [flat_log sc] is the flat call log that the model runner prints and the implementation
    runner reproduces.  A script fixes, for each of the two modules, ANY processing stack
    (list of elements that pass / modify / consume and send from every hook), a handler
-   script, and any list of injected messages; all statements hold for every script. *)
+   script (which may make a callback panic under a catching stereotype), and any list of
+   injected messages; all statements hold for every script. *)
 From Coq Require Import List NArith.
 From DesVerif Require Import Proc.Model Proc.Shape Proc.Corollaries Proc.Trace Proc.Emit Proc.Order Proc.Term.
 Import ListNotations.
@@ -63,6 +64,16 @@ Theorem C14_end_once_reverse_after_handler : forall sc b, In (IBrk b) (trace sc)
               Forall (fun e => is_end e = false) pre.
 Proof. intros sc b H. exact (end_once_reverse_after_handler _ _ (bracket_in_trace sc b H)). Qed.
 Print Assumptions C14_end_once_reverse_after_handler.
+
+(* a callback that panics (caught by the stereotype, which deactivates the module) does not
+   leave the event open: after the panic come only the poll of a woken task and event_end of
+   every element in reverse order.  (The other statements above cover such brackets too.) *)
+Theorem C14_caught_panic_bracket_closed : forall sc b, In (IBrk b) (trace sc) ->
+  brk_panics (cfg sc (b_mod b)) b = true ->
+  exists pre post, b_log b = pre ++ mk (b_mod b) Handler HPanic :: post /\
+    calls post = task_shape (b_mod b) (b_time b) (b_woken b) ++ down_shape (b_mod b) (m_stack (cfg sc (b_mod b))).
+Proof. intros sc b H. exact (proj2 (proj2 (bracket_in_trace sc b H))). Qed.
+Print Assumptions C14_caught_panic_bracket_closed.
 
 (* brackets never interleave: the flat call log of a whole run is a concatenation of
    well-formed brackets, each made of entries of a single module ([brk_ok]), with
@@ -127,4 +138,23 @@ Example C14_nonvacuous :
   (* the two messages sent by the handler of module 1 arrive in program order *)
   map (fun l => nth 1 l (mk 9 Task HReset)) (skipn 2 (flat_map msg_logs (trace ex_script))) =
   [mk 1 (Elem 0) (HIn 50); mk 1 (Elem 0) (HIn 51)].
+Proof. vm_compute. split; reflexivity. Qed.
+
+(* Non-vacuity of the caught-panic case: module 0 = [modify +5; pass] around a handler that
+   panics in handle_message of payload 12; the bracket is closed, the module is inert
+   afterwards (the second message produces no bracket), tear-down still brackets it. *)
+Definition ex_panic_script : script :=
+  {| s_bud := 2;
+     s_m0 := {| m_stack := [ex_elem (Modify 5); ex_elem Pass];
+                m_handler := {| h_stages := 1; h_extra := XPanic 0 12; h_start := []; h_msg := []; h_end := []; h_task := [] |} |};
+     s_m1 := {| m_stack := []; m_handler := {| h_stages := 0; h_extra := XNone; h_start := []; h_msg := []; h_end := []; h_task := [] |} |};
+     s_inj := [(3, EvDeliver 0 7); (4, EvDeliver 0 7)] |}.
+
+Example C14_nonvacuous_panic :
+  flat_map msg_logs (trace ex_panic_script) =
+  [ [mk 0 (Elem 0) (HStart 3); mk 0 (Elem 0) (HIn 7); mk 0 (Elem 1) (HStart 3); mk 0 (Elem 1) (HIn 12);
+     mk 0 Handler (HHandle 12 3); mk 0 Handler HPanic; mk 0 (Elem 1) HEnd; mk 0 (Elem 0) HEnd] ] /\
+  skipn 13 (flat_log ex_panic_script) =
+  [mk 0 (Elem 0) (HStart 4); mk 0 (Elem 1) (HStart 4); mk 0 Handler (HSimEnd 4); mk 0 (Elem 1) HEnd; mk 0 (Elem 0) HEnd;
+   mk 1 Handler (HSimEnd 4)].
 Proof. vm_compute. split; reflexivity. Qed.
